@@ -326,3 +326,23 @@ PROPS["C02"] = dict(
     assumptions=["element slots of a node are default-constructed with the node and destroyed with it: "
                  "'constructed and destroyed exactly once' is checked per slot object", SAN_ASSUME],
 )
+
+# ----------------------------------------------------------------------------- C16
+PROPS["C16"] = dict(
+    units={"rb": dict(src=["harness/C16_ring_buffer.cpp"])},
+    quick=[R("rb", "asan", 8, 1500), R("rb", "plain", 8, 12000)],
+    thorough=[R("rb", "asan", 16, 6000, timeout=7200), R("rb", "plain", 16, 40000, timeout=7200)],
+    rule="a case = 10 rounds; a round = one RingBuffer<Tracked> history (plus int / std::string variants) "
+         "and one SimpleVector<Tracked> history. RingBuffer histories (40..600 ops) use two buffers with "
+         "capacities from {0..9,15,16,17}: push/emplace at both ends (lvalue, rvalue), pop_front, pop_back, "
+         "clear, copy/move construction and assignment (same and different capacity, self), copy_to/move_to, "
+         "deallocate()+allocate(smaller/larger), default construction then allocate, destruction; "
+         "preconditions (capacity, non-empty) are respected. After every op: size/empty/front/back/every "
+         "index (const and non-const) equal the std::deque model, every stored element is alive with the "
+         "right value, ledger.live == stored elements, allocator blocks balance. SimpleVector: construct, "
+         "element assignment, resize, swap, move construction/assignment, destroy, fill. Classes: element "
+         "type x first capacity.",
+    require=dict(any=["ring_histories", "simple_vector_histories", "pop_back", "deallocate_allocate"]),
+    assumptions=["std::deque is the bounded-deque model; a moved-from RingBuffer is only destroyed, assigned "
+                 "to or re-allocated", SAN_ASSUME],
+)
